@@ -23,6 +23,17 @@ func TestMain(m *testing.M) {
 	vx.Main(m)
 }
 
+// errRunCanceled prints like the plain running-function error and wraps context.Canceled.
+var errRunCanceled error = wrappingErr{"run-err", context.Canceled}
+
+type wrappingErr struct {
+	msg   string
+	inner error
+}
+
+func (w wrappingErr) Error() string { return w.msg }
+func (w wrappingErr) Unwrap() error { return w.inner }
+
 var errByName = map[string]error{"start-err": errors.New("start-err"), "run-err": errors.New("run-err"), "stop-err": errors.New("stop-err")}
 
 // gated is one service whose three functions park until the harness releases them.
@@ -208,6 +219,12 @@ func nontrivialSeq(fns [3]bool, seq []string) bool {
 // runSequence executes an enabled sequence against a real service and the model; returns a failure text.
 func runSequence(t *testing.T, fns [3]bool, seq []string) (failure string) {
 	vx.Bubble(t, func(b *vx.B) {
+		// in every second sequence the running function's error wraps context.Canceled (a running function that
+		// returns its context's error): an error is an error, the first one is the failure cause
+		errs := map[string]error{"start-err": errByName["start-err"], "run-err": errByName["run-err"], "stop-err": errByName["stop-err"]}
+		if len(strings.Join(seq, ","))%2 == 0 {
+			errs["run-err"] = errRunCanceled
+		}
 		g := newGated(fns[0], fns[1], fns[2])
 		svc := g.svc
 		parent, cancelParent := context.WithCancel(context.Background())
@@ -249,7 +266,7 @@ func runSequence(t *testing.T, fns [3]bool, seq []string) (failure string) {
 				name := strings.ToLower(strings.TrimSuffix(strings.TrimSuffix(strings.TrimPrefix(op, "rel"), "OK"), "Err"))
 				var err error
 				if strings.HasSuffix(op, "Err") {
-					err = errByName[name+"-err"]
+					err = errs[name+"-err"]
 				}
 				if !g.release(name, err) {
 					fail("step %d: the model says the %s function is executing, the service has not entered it", si, name)
@@ -408,14 +425,14 @@ func runSequence(t *testing.T, fns [3]bool, seq []string) (failure string) {
 					if err == nil {
 						fail("step %d: waiter %d (%s) returned nil although the state was %s", si, wi, w.kind, w.expectState)
 					}
-					if w.expectState == "Failed" && m.failure != "" && !errors.Is(err, errByName[m.failure]) {
+					if w.expectState == "Failed" && m.failure != "" && !errors.Is(err, errs[m.failure]) {
 						fail("step %d: waiter %d error %v does not carry the failure cause %s", si, wi, err, m.failure)
 					}
 				}
 			}
 			fc := svc.FailureCase()
 			if m.state == "Failed" {
-				if fc == nil || fc != errByName[m.failure] {
+				if fc == nil || fc != errs[m.failure] {
 					fail("step %d (%s): failure cause %v, model %s", si, op, fc, m.failure)
 				}
 			} else if fc != nil {
@@ -575,10 +592,22 @@ func TestManagerRapid(t *testing.T) {
 			gs := make([]*gated, n)
 			ms := make([]*svcModel, n)
 			svcs := make([]services.Service, n)
+			// services may carry names, and the same name more than once (replicas of one component): a
+			// service is identified by what it is, not by what it is called
+			naming := rapid.IntRange(0, 2).Draw(rt, "naming")
 			for i := range gs {
 				gs[i] = newGated(true, true, true)
+				switch naming {
+				case 1:
+					gs[i].svc.WithName(fmt.Sprintf("svc-%d", i))
+				case 2:
+					gs[i].svc.WithName("worker")
+				}
 				ms[i] = newSvcModel(true, true, true)
 				svcs[i] = gs[i].svc
+			}
+			if naming == 2 && n > 1 {
+				vx.Class("managers_whose_services_share_one_name", 1)
 			}
 			mgr, err := services.NewManager(svcs...)
 			if err != nil {
